@@ -33,6 +33,9 @@ def gen_pair(rnd, kind, dict_input, requires_labels, labelset):
         labs = labelset
         if rnd.random() < 0.5:      # predict_proba_one style: only some labels are present, the true one possibly missing
             labs = rnd.sample(labelset, rnd.randrange(1, len(labelset) + 1))
+        if rnd.random() < 0.3:      # confident models: exact 0 / 1 and probabilities far below single-precision resolution
+            pal = [0.0, 1.0, 1e-300, 1e-20, 1e-15, 3e-13, 1e-9, 5e-8, 1e-7, 1 - 1e-16, 1 - 1e-9, 0.5]
+            return rnd.choice(labelset), {k: rnd.choice(pal) for k in labs}
         p = [rnd.random() + 1e-3 for _ in labs]
         s = sum(p)
         return rnd.choice(labelset), {k: v / s for k, v in zip(labs, p)}
@@ -186,6 +189,68 @@ def main(run):
             run.sample({"metric": name, "kind": kind, "dict_input": dict_input, "sign": sign, "calls": ncalls,
                         "wrappers_sharing_metric": len(wrappers), "explainer_sharing": expl is not None,
                         "last_call": {"y_true": yt, "y_pred": yp, "loss": got}})
+    # ---- metrics SHARING a confusion matrix (river's cm= argument), each used as a loss: every loss still returns the value of
+    # a fresh stand-alone metric after the single pair, and neither metric's own value moves - whatever the construction order
+    cm_classes = [n for n in accepted if "cm" in inspect.signature(getattr(M, n).__init__).parameters]
+    run.notes["metrics_accepting_shared_cm"] = cm_classes
+    for rep in range(6 if run.tier == "quick" else 40):
+        if rep % nsh != sh or len(cm_classes) < 2:
+            continue
+        chosen = rnd.sample(cm_classes, rnd.choice([2, 2, 3]))
+        cm = M.ConfusionMatrix()
+        objs, losses, befores = [], [], []
+        okc = True
+        for n_ in chosen:        # construction (and the validator's probing) happens one after the other on the shared matrix
+            try:
+                o = getattr(M, n_)(cm=cm)
+                l_ = validate_loss_function(o)
+            except Exception as ex:
+                run.other_error(f"shared-cm-construct:{n_}:{type(ex).__name__}")
+                okc = False
+                break
+            objs.append(o); losses.append(l_)
+        if not okc:
+            continue
+        befores = [o.get() for o in objs]
+        fresh0 = [getattr(M, n_)().get() for n_ in chosen]
+        for j, n_ in enumerate(chosen):
+            run.ok(kind="shared-cm")
+            if not same(befores[j], fresh0[j]):
+                run.violation("metric-state-changed", f"metrics {chosen} sharing one confusion matrix: after constructing the losses {n_}.get() is "
+                                                      f"{befores[j]!r}, a fresh metric reports {fresh0[j]!r}", {"metrics": chosen, "shared_cm": True})
+                okc = False
+        labelset = rnd.choice([[0, 1, 2], ["a", "b", "c"], [0, 1], [False, True]])
+        for i in range(120 if okc else 0):
+            j = rnd.randrange(len(chosen))
+            n_, o, l_ = chosen[j], objs[j], losses[j]
+            dict_input = bool(getattr(l_, "_dict_input_metric", False))
+            kind = "bin" if isinstance(o, BinaryMetric) else "multi"
+            labs = [False, True] if kind == "bin" else labelset
+            yt = rnd.choice(labs)
+            yp = {"output": rnd.choice(labs)}
+            try:
+                fresh = getattr(M, n_)()
+                fresh.update(yt, yp["output"])
+                exp = fresh.get() * (-1.0 if getattr(o, "bigger_is_better", False) else 1.0)
+            except Exception:
+                run.count("pairs-outside-metric-domain")
+                continue
+            try:
+                got = l_(yt, yp)
+            except Exception as ex:
+                run.violation("loss-raises", f"{n_} (shared cm with {chosen}): loss({yt!r}, {yp!r}) raised {type(ex).__name__}: {ex}", {"metrics": chosen, "shared_cm": True})
+                break
+            run.ok(kind="shared-cm")
+            replay = {"metrics": chosen, "shared_cm": True, "call": i, "metric": n_, "y_true": yt, "y_pred": yp}
+            if not same(got, exp):
+                run.violation("not-fresh-value", f"{n_} sharing a confusion matrix with {chosen}: call {i} loss({yt!r}, {yp!r}) = {got!r}, a fresh metric gives {exp!r}", replay)
+                break
+            now = [oo.get() for oo in objs]
+            if any(not same(a, b) for a, b in zip(now, befores)):
+                run.violation("metric-state-changed", f"metrics {chosen} sharing a confusion matrix: after call {i} on {n_} their values are {now!r}, before {befores!r}", replay)
+                break
+            if got == got and got != 0:
+                run.nontriv(("shared-cm", tuple(chosen), n_, repr(yt), repr(yp)))
     run.notes["accepted_metrics"] = accepted
     run.notes["rejected_metrics"] = rejected
     run.notes["max_abs_deviation_from_fresh"] = maxdev
